@@ -1,5 +1,6 @@
 """C20 - the client's stored ClientConf is replaced atomically (fault enumeration under strace)."""
 import concurrent.futures as cf
+import json
 import os
 import re
 import shutil
@@ -246,6 +247,8 @@ def run(tier, seed, t0):
     if harness_errors:
         raise vlib.HarnessError("C20: %d injected runs did not hit the planned call, e.g. %s" % (len(harness_errors), harness_errors[0]))
     shutil.rmtree(work, ignore_errors=True)
+    if REPLAY_CASE is not None:
+        return [v for v in viols if v["replay"].get("case") == REPLAY_CASE["case"] and v["replay"].get("inject") == REPLAY_CASE.get("inject")]
     res = [{"name": "strace-fault-enumeration", "evaluations": len(jobs) + 1, "nontrivial": len(nontrivial), "exhaustive": True, "violations": viols, "samples": samples,
             "extra": {"history": [l for l in dg], "file_syscalls_in_history": len(pl), "kill_points": len(pl), "errnos": errnos, "size_limits": sizes,
                       "syscall_sequence": ["%d:%s" % (c["step"], c["name"]) for c in pl]}, "wall_s": time.time() - t0}]
@@ -260,6 +263,20 @@ def L_of(kind):
     return None
 
 
+REPLAY_CASE = None
+
+
 def replay(path):
-    print("C20: re-run ./vcheck C20; the replay file names the injected syscall and occurrence")
-    sys.exit(2)
+    """the enumeration is small (a few hundred child runs): re-run it in the recorded tier and report the recorded
+    case (same history step, same syscall occurrence, same injected fault) if it violates again"""
+    global REPLAY_CASE
+    d = json.load(open(path))
+    REPLAY_CASE = d.get("replay") or {}
+    vs = run(d.get("tier", "quick"), 0, time.time())
+    for v in vs:
+        print("  key=%s: %s" % (v["key"], v["what"][:400]))
+    if vs:
+        print("VIOLATION property=%s replay=%s" % (PID, path))
+        sys.exit(1)
+    print("replay: no violation")
+    sys.exit(0)
